@@ -141,7 +141,7 @@ def check_token_tags(r, w):
         why = bad = None
         n = 0
         for pa in w.roots[entry]:
-            if pa.raises:
+            if pa.raises or pa.status == 'loopcut':
                 continue
             n += 1
             ret = next((e.value for e in reversed(pa.events) if e.kind == 'return' and e.fi is fi), None)
